@@ -62,7 +62,22 @@ func genInt(kind string, r *fw.Rng, class int) uint64 {
 	return r.U64() & max
 }
 
+// plausible field contents (addresses, times, service codes): generators of pure noise never produce the
+// value combinations real traffic has (a '+' in front of digits, decimal strings, status words)
+var plausible = []string{"+8613800138000", "8613800138000", "10086", "1069", "+1", "+", "SMS", "DELIVRD", "000", "01", "2410011200", "241001120000032+", "000000010000000R", "CMT", "id:1"}
+
+func genPlausible(r *fw.Rng, max int) []byte {
+	s := plausible[r.Intn(len(plausible))]
+	if len(s) > max {
+		s = s[:max]
+	}
+	return []byte(s)
+}
+
 func genFixed(w int, r *fw.Rng, class int) []byte {
+	if class == 4 && r.Chance(1, 3) {
+		return genPlausible(r, w)
+	}
 	switch class {
 	case 0:
 		return []byte{}
@@ -174,8 +189,11 @@ func GenTLVs(r *fw.Rng, class int) []TLV {
 		var l []TLV
 		for len(l) < n {
 			tag := uint16(r.U32())
-			if r.Chance(1, 2) {
-				tag = uint16(r.Range(0, 0x20)) // the range the SMGP/SMPP specs define
+			switch r.Intn(4) {
+			case 0, 1:
+				tag = uint16(r.Range(0, 0x20)) // the range the SMGP spec defines (and low SMPP tags)
+			case 2: // tags the SMPP 3.4 specification names (§5.3.2)
+				tag = []uint16{0x0005, 0x0006, 0x001E, 0x0201, 0x0204, 0x020A, 0x020C, 0x020E, 0x020F, 0x0381, 0x0420, 0x0424, 0x0425, 0x0427, 0x1204, 0x130C, 0x1380, 0x1383}[r.Intn(18)]
 			}
 			if seen[tag] {
 				continue
@@ -285,6 +303,9 @@ func Gen(t *Type, r *fw.Rng, force, class int) (*Values, []string) {
 				v.F[f.Spec] = nonNul(r, f.W-1)
 			default:
 				v.F[f.Spec] = nonNul(r, r.Range(0, f.W-1))
+				if r.Chance(1, 3) {
+					v.F[f.Spec] = genPlausible(r, f.W-1)
+				}
 			}
 		case "list":
 			l := genList(f.W, r, k)
